@@ -301,10 +301,14 @@ def mk_pipeline_relabelling(first, second, ter, with_altloc=False):
             t2 = M.altloc(t2, int(cb[22:26]), 'CB')
         base_txt = t1 + M.renumber(t2, 500, 'B')
         start = ctx.choice('second_chain_starts_at', [n1[-1], n1[-1] + 1, n1[-1] - 1, n1[0], n1[0] - len(n1), 1, -5, -150, 3000])
-        chain = ctx.choice('second_chain_id', ['B', 'Z', 'a', '2'])
+        c1 = [l for l in t1.split('\n') if l.startswith('ATOM')][0][21]
+        chain = ctx.choice('second_chain_id', sorted({'B', 'Z', 'a', '2', c1.lower()}))
         rel_txt = t1 + M.renumber(t2, start, chain)
-        base = M.run(base_txt)
-        rel = M.run(rel_txt)
+        # ... also when only the first chain is selected with -c (chain identifiers are case sensitive: renaming the other chain
+        # to the lower-case letter of the selected one must not pull it into the calculation)
+        args = ['-c', c1] if ctx.choice('selection', ['none', 'first chain only']) == 'first chain only' else []
+        base = M.run(base_txt, args=args)
+        rel = M.run(rel_txt, args=args)
 
         def key(g):
             return (g.type, g.atom.name, round(g.atom.x, 3), round(g.atom.y, 3), round(g.atom.z, 3))
@@ -371,7 +375,7 @@ def obligations(tier):
                                [BR, ('cterm_PHE', 'tri_ASP', False), ('cterm_PHE', 'tri_ASP', True), ('pair_LYS_ASP', 'tri_HIS', True), ('pair_LYS_ASP', 'tri_HIS', False), ('cterm_PHE', 'pair_ASP_ARG', False), ('pep8', 'tri_LYS', False)]):
         obs.append(Obligation('O6-pipeline-relabelling[%s+%s%s]' % (first, second, ',TER' if ter else ',no TER'), mk_pipeline_relabelling(first, second, ter),
                               code=['propka/input.py:get_atom_lines_from_pdb', 'propka/conformation_container.py:ConformationContainer.sort_atoms_key', 'propka/run.py:single (whole pipeline)'],
-                              bounds='%s followed %s by %s as a second chain; second chain renamed (4 identifiers) and renumbered from 9 starting numbers incl. collisions with the first chain, negative and >999 (36 concrete files)' % (first, 'after a TER record' if ter else 'directly (no TER)', second),
+                              bounds='%s followed %s by %s as a second chain; second chain renamed (4-5 identifiers incl. the lower-case letter of the first chain), with and without -c <first chain>, and renumbered from 9 starting numbers incl. collisions with the first chain, negative and >999 (36 concrete files)' % (first, 'after a TER record' if ter else 'directly (no TER)', second),
                               kind='table-check', claim_doc='same groups up to labels; pKa, desolvation, determinants unchanged', max_paths=400, shards=4))
     return obs
 
